@@ -1,9 +1,83 @@
 import Driver.Util
+import Lattigo.Model.PolyEval
 
+/-
+  C13 line protocol.
+    split <n>                         → a b                     (SplitDegree)
+    optsplit <logDegree>              → logSplit                (bignum.OptimalSplit)
+    depth <degree>                    → Depth()                 (bignum.Polynomial.Depth)
+    factorize <cheb 0|1> <n> <coeffs> → q r                     (bignum.Polynomial.Factorize)
+    eval t= q= slots= cheb= lazy= lvl= scale= tscale= x= map=<a,b|c,d>|- (P <coeffs>)+
+                                      → tr=<trace> st=<status> [lvl= scale= vals= ps=]
+-/
 namespace Driver.C13
 open Driver
+open Lattigo.Model.PolyEval
 
-/-- stub: replaced by the property's real handler -/
-def handle (_toks : List String) : String := badOp
+def parsePolys : List String → Option (List (List Int))
+  | [] => some []
+  | "P" :: c :: rest => do
+    let c ← parseIVec? c
+    let r ← parsePolys rest
+    some (c :: r)
+  | _ => none
+
+def parseMap (s : String) : Option (Option (List (List Nat))) :=
+  if s == "-" then some none
+  else ((s.splitOn "|").mapM parseVec?).map some
+
+def evalLine (toks : List String) : Option String := do
+  let t ← (kv? toks "t") >>= parseNat?
+  let q ← (kv? toks "q") >>= parseVec?
+  let slots ← (kv? toks "slots") >>= parseNat?
+  let cheb ← (kv? toks "cheb") >>= parseNat?
+  let lazy ← (kv? toks "lazy") >>= parseNat?
+  let lvl ← (kv? toks "lvl") >>= parseNat?
+  let scale ← (kv? toks "scale") >>= parseNat?
+  let tscale ← (kv? toks "tscale") >>= parseNat?
+  let x ← (kv? toks "x") >>= parseIVec?
+  let mapping ← (kv? toks "map") >>= parseMap
+  let polys ← parsePolys (toks.dropWhile (· != "P"))
+  let env : Env := { t := t, q := q, cheb := cheb == 1, slots := slots }
+  let (tr, st, o) := run env polys mapping (lazy == 1) lvl scale tscale (if t = 0 then List.replicate slots 0 else x)
+  let trs := if tr.isEmpty then "-" else ";".intercalate tr
+  match o with
+  | none => some s!"tr={trs} st={st}"
+  | some o =>
+    if t = 0 then some s!"tr={trs} st={st} lvl={o.level} val={if o.bad then "wrong" else "ok"}"
+    else if o.bad then some s!"tr={trs} st={st} lvl={o.level} scale={o.scale} vals=wrong ps=wrong"
+    else
+      -- layer (A): Paterson–Stockmeyer recursion on values, per slot
+      let deg := (polys.headD []).length - 1
+      let logSplit := optimalSplit (bitLen deg)
+      let ps := (List.range slots).map fun j =>
+        let poly : List Int := match mapping with
+          | none => polys.headD []
+          | some m => (m.zip polys).foldl (fun acc mc => if mc.1.contains j then mc.2 else acc) []
+        (psRec intOps (cheb == 1) logSplit (x.getD j 0) (deg + 2) poly) % (t : Int)
+      some s!"tr={trs} st={st} lvl={o.level} scale={o.scale} vals={showIVec o.val} ps={showIVec ps}"
+
+def handle (toks : List String) : String :=
+  match toks with
+  | ["split", n] =>
+    match parseNat? n with
+    | some n => let (a, b) := splitDegree n; s!"{a} {b}"
+    | none => badOp
+  | ["optsplit", n] =>
+    match parseNat? n with
+    | some n => if n = 0 then "panic" else toString (optimalSplit n)   -- 1 << -1
+    | none => badOp
+  | ["depth", n] =>
+    match parseNat? n with
+    | some n => toString (depthCheck n)
+    | none => badOp
+  | ["factorize", cheb, n, cs] =>
+    match parseNat? cheb, parseNat? n, parseIVec? cs with
+    | some cheb, some n, some cs =>
+      let (q, r) := factorize intOps (cheb == 1) n cs
+      s!"{showIVec q} {showIVec r}"
+    | _, _, _ => badOp
+  | "eval" :: rest => (evalLine rest).getD badOp
+  | _ => badOp
 
 end Driver.C13
